@@ -217,6 +217,43 @@ def discovery_traces(seed, count, length):
     return traces
 
 
+def minor_sibling_traces():
+    """a filter with a concrete minor version (F5 / F4) has found its service; another filter is registered; the same service
+    instance is then offered with ANOTHER minor version (heard by nobody, or only by a wildcard listener) -- and the watched
+    one is refreshed before its TTL: the refresh postpones the expiry, which is reported once, TTL after the last refresh"""
+    from . import c05
+    out = []
+    for flt, svc, sib in (("F5", "s1", "s6"), ("F4", "s2", "s7")):
+        for ttl in (2, 3):
+            for other in ("F3", "ALL", None):
+                for sib_first in (False, True):
+                    def rx(t, j, sid, name, ttl_=ttl):
+                        return {"t": t, "j": j, "op": "rx", "src": "a1", "mc": True, "sid": sid, "rb": True, "uc": True,
+                                "es": [{"ty": "offer", "svc": name, "ttl": ttl_, "opts": []}]}
+                    sched = [{"t": 0, "j": 0, "op": "watch", "lst": "L1", "flt": flt}]
+                    sched.append(rx(1, 0, 1, sib if sib_first else svc))
+                    if other:
+                        sched.append({"t": 1, "j": 1, "op": "watch", "lst": "L2", "flt": other})
+                    sched.append(rx(1, 2, 2, svc if sib_first else sib))
+                    sched.append(rx(ttl, 0, 3, svc))          # the refresh, one tick before the deadline
+                    sched.append(rx(ttl, 1, 4, sib))
+                    sched.append(rx(2 * ttl - 1, 0, 5, svc))    # and again
+                    ev, missed = c05.run_schedule(sched)
+                    proj = []
+                    for e in ev:
+                        if e["k"] == "in" and e["op"] == "rx":
+                            for en in e["es"]:
+                                if en["svc"] != sib:
+                                    proj.append({"k": "in", "op": "ts_refresh", "a": e["src"], "key": en["svc"], "ttl": en["ttl"], "t": e["t"]})
+                        elif e["k"] == "out" and e["op"] in ("offered", "stopped") and e["lst"] == "L1":
+                            proj.append({"k": "out", "op": "new" if e["op"] == "offered" else "gone", "a": e["src"], "key": e["svc"], "t": e["t"]})
+                        elif e["k"] in ("idle", "exc"):
+                            proj.append(e)
+                    out.append({"cfg": mon_cfg(c05.SVCS), "ev": monpass.add_adv(proj), "sched": sched, "missed": missed, "level": "discovery",
+                                "diag": {"family": "sibling with another minor version (%s / %s / %s, TTL %d)" % (flt, svc, sib, ttl)}})
+    return out
+
+
 def model_check(cfgname, sw=None, subst=None, timeout=1500):
     text = tlc.cfg_text(cfgname)
     for a, b in (subst or {}).items():
@@ -265,7 +302,7 @@ def check(ctx):
     n, length = ctx.pick((400, 10), (6000, 16))
     traces = direct_traces(ctx.seed, n, length)
     bad, mstates = judge(ctx, traces, "TimedStore direct")
-    dtr = discovery_traces(ctx.seed, ctx.pick(150, 2000), 10)
+    dtr = discovery_traces(ctx.seed, ctx.pick(150, 2000), 10) + minor_sibling_traces()
     bad2, ms2 = judge(ctx, dtr, "discovery receive path")
     near = [t for t in traces if t["t_end"] < 10000][: ctx.pick(150, 1500)]
     conf, cstates = conform.run("SDTrace", trace_consts(), near)
